@@ -3,5 +3,4 @@ package main
 import "fmt"
 
 func replay(args []string) error { return fmt.Errorf("replay: not built yet") }
-func child(args []string) error  { return fmt.Errorf("child: not built yet") }
 func conc(args []string) error   { return fmt.Errorf("conc: not built yet") }
